@@ -41,6 +41,61 @@ CONDITIONAL_PANIC_CALLEES = {
 }
 
 
+def str_const_of(body, op, depth=0):
+    """string literal an operand refers to (through copies and re-borrows)"""
+    k = op.get("k")
+    if k is not None:
+        return k.get("str")
+    if depth > 6:
+        return None
+    pl = mirutil.place_of(op)
+    if pl is None:
+        return None
+    for (dbb, idx, item) in mirutil.local_def_sites(body, pl["l"]):
+        if item.get("k") == "assign":
+            r = item["r"]
+            if r["k"] == "use":
+                return str_const_of(body, r["o"], depth + 1)
+            if r["k"] == "ref":
+                return str_const_of(body, {"c": {"l": r["p"]["l"], "p": []}}, depth + 1)
+        return None
+    return None
+
+
+def describe_operand(body, op, depth=0):
+    """short structural description of where an operand comes from (field / variable name,
+    constant, callee) -- used to give assert sites stable, line-independent names"""
+    k = op.get("k")
+    if k is not None:
+        if "v" in k:
+            return str(k["v"])
+        return "const"
+    pl = mirutil.place_of(op)
+    if pl is None or depth > 6:
+        return "?"
+    fs = mirutil.place_fields(pl)
+    if fs:
+        return fs[-1][1]
+    loc = body.locals[pl["l"]]
+    if loc.get("n"):
+        return loc["n"]
+    for (dbb, idx, item) in mirutil.local_def_sites(body, pl["l"]):
+        if item.get("k") == "call":
+            nm = (mirutil.callee_def(item) or "call").split("::")[-1]
+            return nm + "()"
+        if item.get("k") == "assign":
+            r = item["r"]
+            if r["k"] in ("use", "cast"):
+                return describe_operand(body, r["o"], depth + 1)
+            if r["k"] == "bin":
+                return "(%s %s %s)" % (describe_operand(body, r["a"], depth + 1), r["op"].replace("WithOverflow", ""),
+                                       describe_operand(body, r["b"], depth + 1))
+            if r["k"] == "ref":
+                return describe_operand(body, {"c": r["p"]}, depth + 1)
+        return "?"
+    return "?"
+
+
 def macro_kind(item):
     mx = item.get("mx", [])
     for m in ("unreachable", "unimplemented", "todo", "panic", "assert", "assert_eq", "assert_ne",
@@ -72,9 +127,9 @@ def enumerate_sites(p, fns, include_log=True):
                     continue
                 if m["kind"] == "bounds":
                     ln_ = m["len"].get("k", {}).get("v")
-                    detail = "bounds(len=%s)" % (ln_ if ln_ is not None else "dyn")
+                    detail = "bounds(len=%s index %s)" % (ln_ if ln_ is not None else "dyn", describe_operand(b, m["index"]))
                 elif m["kind"] == "overflow":
-                    detail = "overflow(%s)" % m["op"]
+                    detail = "overflow(%s %s %s)" % (describe_operand(b, m["a"]), m["op"], describe_operand(b, m["b"]))
                 else:
                     detail = m["kind"]
                 site = ("assert", detail)
@@ -84,9 +139,9 @@ def enumerate_sites(p, fns, include_log=True):
                     mk = macro_kind(t)
                     msg = None
                     for a in t["args"]:
-                        k = a.get("k")
-                        if k and "str" in k:
-                            msg = k["str"]
+                        m_ = str_const_of(b, a)
+                        if m_ is not None:
+                            msg = m_
                     site = (PANIC_CALLEES[d] if not mk else mk, (msg or "")[:60])
                 elif d in CONDITIONAL_PANIC_CALLEES:
                     # only foreign implementations (local Index impls are interpreted)
